@@ -53,6 +53,16 @@ def make_constraint(kind, ndim):
         if ndim == 1:
             return c, (lambda x: float(x[0]) >= 0.5 - 1e-12)
         return c, (lambda x: float(x[1]) >= float(x[0]) + 0.5 - 1e-12)
+    if kind == 'symbolic_up':
+        # a generated constraint that moves its variable UP, towards the interior of a box with lower bound -2 and
+        # upper bounds >= 3 (so it is compatible with every box used here): x0 = max(x0, x1 - 1)
+        from mystic.symbolic import generate_constraint, generate_solvers, simplify
+        eqn = 'x0 >= 0.5' if ndim == 1 else 'x0 >= x1 - 1.0'
+        c = generate_constraint(generate_solvers(simplify(eqn, variables=['x%d' % i for i in range(ndim)]),
+                                                 nvars=ndim))
+        if ndim == 1:
+            return c, (lambda x: float(x[0]) >= 0.5 - 1e-12)
+        return c, (lambda x: float(x[0]) >= float(x[1]) - 1.0 - 1e-12)
     raise ValueError(kind)
 
 
@@ -96,7 +106,7 @@ def gen_scenarios(seed, n, props):
             clip = None        # the pair (tight=False, clip given) raises ValueError, as documented
         if clip is False and 'C02' not in props:
             clip = True        # C01/C03 exclude the randomising clip=False mode
-        cons = rng.choice(['none', 'none', 'pin0', 'pin0_inplace', 'clamp', 'clamp_inplace', 'round', 'tie', 'symbolic'])
+        cons = rng.choice(['none', 'none', 'pin0', 'pin0_inplace', 'clamp', 'clamp_inplace', 'round', 'tie', 'symbolic', 'symbolic_up'])
         if cons == 'tie' and ndim < 2:
             cons = 'pin0'
         pen = rng.choice(['none', 'none', 'quad_ineq', 'lin_eq'])
@@ -133,7 +143,40 @@ def compatible(sc):
         return True
     if sc['bounds'] == 'degenerate' and sc['cons'] in ('tie', 'symbolic', 'round'):
         return False
-    return True
+    return _maps_box_into_itself(sc['cons'], sc['ndim'], tuple(lo), tuple(hi) if hi is not None else None)
+
+
+_COMPAT = {}
+
+
+def _maps_box_into_itself(cons, ndim, lo, hi):
+    """the hypothesis itself, tested: the constraints function must not move a point of the box out of the box
+    (corners, edge midpoints and 300 seeded interior points; an infinite / defaulted side is probed up to 1e3).  E.g. the
+    generated constraint for 'x1 >= x0 + 0.5' isolates x0 (x0 = x1 - 0.5) and leaves every box with a finite lower
+    bound: with tight / clip ranges the solver then couples it through and_, which randomises when the two disagree --
+    neither deterministic nor idempotent, so outside C01/C03."""
+    key = (cons, ndim, lo, hi)
+    if key in _COMPAT:
+        return _COMPAT[key]
+    cfun, _ = make_constraint(cons, ndim)
+    ok = True
+    if cfun is not None:
+        H = [1e3 if (hi is None or math.isinf(hi[i])) else hi[i] for i in range(ndim)]
+        L = list(lo)
+        rng = random.Random(12345)
+        pts = [[rng.choice([L[i], H[i], (L[i] + min(H[i], L[i] + 10)) / 2.0]) for i in range(ndim)] for _ in range(60)]
+        pts += [[rng.uniform(L[i], min(H[i], L[i] + rng.choice([1.0, 10.0, 1000.0]))) for i in range(ndim)] for _ in range(300)]
+        for p in pts:
+            try:
+                q = [float(v) for v in cfun(list(p))]
+            except Exception:      # noqa
+                ok = False
+                break
+            if any(q[i] < L[i] - 1e-9 or q[i] > H[i] + 1e-9 for i in range(ndim)):
+                ok = False
+                break
+    _COMPAT[key] = ok
+    return ok
 
 
 def run_scenario(sc, props):
@@ -218,7 +261,12 @@ def run_scenario(sc, props):
         if 'C02' in props and ranges_on:
             for (p, v) in new_calls:
                 if not inbox(p, L, H):
-                    viol.append(('evaluated-outside-box', 'step %d point %r box %r..%r' % (k, p, L, H)))
+                    # known sub-case (F41): a side of the box is infinite, a member outside the box is re-drawn with
+                    # random.uniform(min, inf) = inf, and differences of infinite coordinates give NaN trial vectors,
+                    # which no comparison-based guard can reject
+                    sub = '#nan-coordinate,infinite-side' if (any(math.isnan(t) for t in p) and
+                                                              any(math.isinf(t) for t in list(L) + list(H))) else ''
+                    viol.append(('evaluated-outside-box' + sub, 'step %d point %r box %r..%r' % (k, p, L, H)))
                     break
         # ---- C03: constraints hold at every evaluation
         if 'C03' in props and cons_on:
